@@ -1006,4 +1006,46 @@ theorem resolveTimeZh_digit (u : Uni) (ha : u.Ascii) (cfg : ZhCfg) (hfix : cfg.a
     simpa [Clock.value] using this
 
 
+
+/-! ### `ChineseDateParser.match_to_date` -/
+
+/-- What the groups of a Chinese date layout must decode to: the `month` / `day` groups are keys of the tables whose
+values (reduced modulo 12 / 31 by `get_month_of_year` / `get_day_of_month`) are `mo` / `d`; the year is either the
+digit group `year` read as `y`, or — when that group is blank — the 汉字 year `convert_chinese_year_to_number`
+returned (`chsYear = y`). -/
+structure DecodesZh (u : Uni) (cfg : DateCfg) (g : DateGroups) (chsYear : Int) (y mo d : Nat) : Prop where
+  month : ∃ mv, lookup cfg.monthOfYear g.month = some mv ∧ zhReduce 12 mv = mo
+  day : ∃ dv, lookup cfg.dayOfMonth g.day = some dv ∧ zhReduce 31 dv = d
+  year : IsNum u g.year y ∨ (blank u g.year = true ∧ chsYear = (y : Int))
+
+theorem decodeDateZh_of (u : Uni) (cfg : DateCfg) (g : DateGroups) (chsYear : Int) (y mo d : Nat)
+    (h : DecodesZh u cfg g chsYear y mo d) (hy : 100 ≤ y) :
+    decodeDateZh u cfg g chsYear = .ok ((mo : Int), (d : Int), (y : Int)) := by
+  obtain ⟨mv, hm, rfl⟩ := h.month
+  obtain ⟨dv, hd, rfl⟩ := h.day
+  rcases h.year with hn | ⟨hb, hc⟩
+  · have a : ¬ ((y : Int) < 100) := by omega
+    simp [decodeDateZh, hm, hd, hn.nonblank, hn.numeric, hn.int, a]
+  · have a : ¬ (chsYear = -1) := by omega
+    simp [decodeDateZh, hm, hd, hb, a, hc]
+
+theorem matchToDateZh_of (u : Uni) (cfg : DateCfg) (g : DateGroups) (chsYear : Int) (y mo d : Nat) (ref : DT)
+    (h : DecodesZh u cfg g chsYear y mo d) (hy : 100 ≤ y) :
+    matchToDateZh u cfg g chsYear ref =
+      .ok { success := true, timex := ymd y mo d,
+            future := (safeCreateFromMinValue y mo d).getD minValue,
+            past := (safeCreateFromMinValue y mo d).getD minValue } := by
+  have n0 : ¬ ((y : Int) = 0) := by omega
+  have n0' : y ≠ 0 := by omega
+  simp [n0', matchToDateZh, decodeDateZh_of u cfg g chsYear y mo d h hy, bind, Except.bind, pure, Except.pure, n0,
+    luisDate_eq y mo d (by omega), generateDates]
+
+theorem resolveDateZh_valid (u : Uni) (cfg : DateCfg) (g : DateGroups) (chsYear : Int) (y mo d : Nat) (ref : DT)
+    (h : DecodesZh u cfg g chsYear y mo d) (h1 : 1000 ≤ y) (h2 : y < 10000) (hv : (⟨y, mo, d⟩ : Date).valid = true) :
+    resolveDateZh u cfg g chsYear ref = .ok (some [{ timex := ymd y mo d, type := sDate, value := some (ymd y mo d) }]) := by
+  simp only [resolveDateZh, matchToDateZh_of u cfg g chsYear y mo d ref h (by omega), safeCreate_valid y mo d hv, bind,
+    Except.bind, Option.getD_some]
+  exact dtRes_date u y mo d h1 h2
+
+
 end RTV.DtRes
